@@ -6,6 +6,18 @@ The `lineno_offset` each construct ends up with, and the generic step from "offs
 namespace MakoModel.ErrPos
 open MakoModel.Basic MakoModel.Lexer
 
+/-- general form: the code string starts `d` lines below the node -/
+theorem reported_eq_true_at (lb : Label) (s : Str) (p o : Nat) (raw : Str) (k : Nat) (pc : PyCall) (j d : Nat)
+    (hcall : pyCallOf lb (ctorString lb raw) = some pc)
+    (hj : rawLineOf lb raw k = j) (hd : countNL (slice s p o) = d) (hoff : pc.offset + (k : Int) = (d : Int) + (j : Int))
+    (hpo : p ≤ o) (hloc : slice s o (o + raw.length) = raw)
+    (hj1 : 1 ≤ j) (hjn : j ≤ countNL raw + 1) :
+    reportedLine lb (lineOf s p) raw k = some ((trueLine s o lb raw k : Nat) : Int) := by
+  unfold reportedLine trueLine lineStart
+  rw [hcall, hj, lineOf_in_code s o raw (j - 1) hloc (by omega), lineOf_add s p o hpo, hd]
+  simp only [Option.map_some, adjustLineno, Option.some.injEq]
+  omega
+
 /-- reported = true, given the construct's arithmetic fact `offset + k = raw line index` -/
 theorem reported_eq_true (lb : Label) (s : Str) (p o : Nat) (raw : Str) (k : Nat) (pc : PyCall) (j : Nat)
     (hcall : pyCallOf lb (ctorString lb raw) = some pc)
@@ -49,8 +61,14 @@ theorem offset_block (raw : Str) (h : HasCode raw) :
   rw [pythonCode_offset, block_offset raw h]
   simp
 
-theorem offset_filter (raw : Str) : ∃ pc, pyCallOf .filter (ctorString .filter raw) = some pc ∧ pc.offset = 0 :=
+theorem offset_filter (n : Nat) (raw : Str) :
+    ∃ pc, pyCallOf (.filter n) (ctorString (.filter n) raw) = some pc ∧ pc.offset = (n : Int) :=
   ⟨_, rfl, rfl⟩
+
+theorem escapesLinenoOffset_eq (exprRaw rawEsc : Str) :
+    escapesLinenoOffset exprRaw rawEsc = countNL exprRaw + countNL (wsPrefix rawEsc) := by
+  unfold escapesLinenoOffset
+  rw [countNL_append, take_len_sub_lstrip]
 
 theorem offset_sigDef (raw : Str) : ∃ pc, pyCallOf .sigDef (ctorString .sigDef raw) = some pc ∧ pc.offset = 0 :=
   ⟨_, rfl, rfl⟩
